@@ -100,6 +100,86 @@ def pat_info(A, st, v):
     return None, False
 
 
+# combinator -> (family of the receiver, what happens on the positive tag, what happens on the negative tag)
+#   ("call", argi, wrap)   result = wrap(closure_argi(payload))      wrap in {None, "Some", "Ok", "Err"}
+#   ("call0", argi, wrap)  result = wrap(closure_argi())
+#   ("pay", wrap)          result = wrap(payload)
+#   ("const", tag)         result = that tag without payload
+#   ("arg", argi)          result = the plain argument argi
+COMBINATORS = {
+    "Option::map_or_else": ("Option", ("call", 2, None), ("call0", 1, None)),
+    "Option::map": ("Option", ("call", 1, "Some"), ("const", "None")),
+    "Option::map_or": ("Option", ("call", 2, None), ("arg", 1)),
+    "Option::and_then": ("Option", ("call", 1, None), ("const", "None")),
+    "Option::unwrap_or_else": ("Option", ("pay", None), ("call0", 1, None)),
+    "Option::ok_or_else": ("Option", ("pay", "Ok"), ("call0", 1, "Err")),
+    "Option::is_some_and": ("Option", ("call", 1, None), ("bool", False)),
+    "Option::is_none_or": ("Option", ("call", 1, None), ("bool", True)),
+    "Result::map": ("Result", ("call", 1, "Ok"), ("pay", "Err")),
+    "Result::map_err": ("Result", ("pay", "Ok"), ("call", 1, "Err")),
+    "Result::and_then": ("Result", ("call", 1, None), ("pay", "Err")),
+    "Result::unwrap_or_else": ("Result", ("pay", None), ("call", 1, None)),
+    "Result::map_or_else": ("Result", ("call", 2, None), ("call", 1, None)),
+    "Result::is_ok_and": ("Result", ("call", 1, None), ("bool", False)),
+    "Result::is_err_and": ("Result", ("bool", False), ("call", 1, None)),
+}
+
+
+def closure_combinator(A, fn, frame, b, t, st, n, dest_ty):
+    spec = None
+    for k, v in COMBINATORS.items():
+        if matches(n, k):
+            spec = v
+            break
+    if spec is None:
+        return None
+    fam, pos, neg = spec
+    # only worth it when a closure body is available for at least one side
+    sides = [s for s in (pos, neg) if s[0] in ("call", "call0")]
+    if not any(A.closure_of_operand(fn, t["args"][s[1]] if s[1] < len(t["args"]) else None) is not None for s in sides):
+        return None
+    o0 = t["args"][0]
+    v = A.deref(st, A.operand(st, frame, o0))
+    ptag, ntag = ("Some", "None") if fam == "Option" else ("Ok", "Err")
+    tag = v[1] if v[0] == "opt" else None
+    payload = v[2] if v[0] == "opt" else None
+    rfam = opt_family(dest_ty)
+    exits = []
+    ok = True
+    for (this_tag, action) in ((ptag, pos), (ntag, neg)):
+        if tag is not None and tag != this_tag:
+            continue
+        s1 = st.copy()
+        pay = payload if tag == this_tag or tag is None and this_tag == ptag else None
+        # payload type for defaults comes from the closure parameter
+        kind = action[0]
+
+        def wrap(rv, w):
+            if w is None:
+                return rv
+            return ("opt", w, rv, rfam or ("Option" if w in ("Some", "None") else "Result"))
+        if kind in ("call", "call0"):
+            vals = [pay] if kind == "call" else []
+            r = A.call_closure(fn, frame, b, t, s1, action[1], vals)
+            if r is None:
+                ok = False
+                break
+            for (s2, rv) in r:
+                exits.append((s2, wrap(rv, action[2])))
+        elif kind == "pay":
+            exits.append((s1, wrap(pay, action[1])))
+        elif kind == "const":
+            exits.append((s1, ("opt", action[1], None, rfam or "Option")))
+        elif kind == "bool":
+            exits.append((s1, ("bool", ("const", action[1]))))
+        elif kind == "arg":
+            exits.append((s1, A.arg(s1, frame, t, action[1])))
+    if not ok:
+        return None
+    outs = A.finish_call(fn, frame, b, t, exits, "cmb")
+    return outs if outs else "diverge"
+
+
 def model(A, fn, frame, b, t, st, name):
     n = name
     dest_ty = t["dest"]["ty"]
@@ -159,6 +239,21 @@ def model(A, fn, frame, b, t, st, name):
                 return ret(("int", i))
         return ret(None)
 
+    if matches(n, "Shr::shr", "BitAnd::bitand", "BitOr::bitor", "BitXor::bitxor") and is_int_ty(dest_ty):
+        vals = []
+        for i in (0, 1):
+            x = int_of(A, st, A.arg(st, frame, t, i))
+            if x is None:
+                aty = (t["args"][i].get("p") or {}).get("ty", t["args"][i].get("ty", "")).replace("&", "").replace("mut ", "").strip()
+                x = A.fresh_int(st, aty if aty in TYPE_RANGE else dest_ty, "elem")[1]
+            vals.append(("int", x))
+        op = {"shr": "Shr", "bitand": "BitAnd", "bitor": "BitOr", "bitxor": "BitXor"}[n.rsplit("::", 1)[-1]]
+        if op == "Shr":
+            k = vals[1][1]
+            bits = {"u8": 8, "u16": 16, "u32": 32, "u64": 64, "usize": 64, "u128": 128}.get(dest_ty)
+            A.require(st, fn, b, "overflow:Shr", "shift amount below the bit width", [k.addc(-(bits - 1)) if bits else None, k.scale(-1)], cls="B")
+        return ret(A.binop(st, op, vals[0], vals[1], dest_ty))
+
     # ---------------------------------------------------------------- indexing
     if (matches(n, "Index::index", "IndexMut::index_mut") or n in ("core::slice::index::index", "core::slice::index::index_mut", "core::str::traits::index",
                                                                     "core::str::traits::index_mut", "std::array::index", "std::array::index_mut")):
@@ -184,6 +279,7 @@ def model(A, fn, frame, b, t, st, name):
         if ix[0] == "range":
             kind, lo, hi = ix[1], ix[2], ix[3]
             if kind == "RangeFull":
+                A.require(st, fn, b, "index:range", "full range: cannot fail", [])
                 return ret(("seq", ln, s[2]))
             if kind == "Range":
                 A.require(st, fn, b, "index:range", "start <= end <= len", [lo.sub(hi) if lo is not None and hi is not None else None, hi.sub(ln) if hi is not None else None])
@@ -360,6 +456,9 @@ def model(A, fn, frame, b, t, st, name):
     if matches(n, "FromResidual::from_residual"):
         fam = opt_family(dest_ty)
         return ret(("opt", "Err" if fam == "Result" else "None", None, fam or "Result"))
+    r = closure_combinator(A, fn, frame, b, t, st, n, dest_ty)
+    if r is not None:
+        return r
     if matches(n, "Option::map", "Option::and_then", "Option::ok_or", "Option::ok_or_else", "Result::map", "Result::map_err", "Result::ok", "Option::as_ref", "Option::as_mut",
                "Option::as_deref", "Option::cloned", "Option::copied", "Result::as_ref", "Option::filter", "Option::or", "Option::take"):
         v = A.deref(st, A.arg(st, frame, t, 0))
